@@ -257,6 +257,16 @@ class LV:
         unsupported('tobytes of an N-D view (C order)')
         return Region([self])
 
+    # method spellings of the reductions the facade gives as functions
+    def sum(self, axis=None, **k):
+        return KExpr('sum', [self])
+
+    def min(self, axis=None, **k):
+        return MinMax(self, 'min', axis)
+
+    def max(self, axis=None, **k):
+        return MinMax(self, 'max', axis)
+
     def __array__(self, *a, **k):
         unsupported('conversion of a lazy view to an ndarray')
         return _np.zeros(0)
@@ -430,6 +440,26 @@ class KFile:
         self.wpos = z3.IntVal(0)
 
 
+class KBytes:
+    """n raw payload bytes of a K-file starting at global address base."""
+
+    def __init__(self, kf, base, nbytes):
+        self.kf, self.base, self.nbytes = kf, base, nbytes
+
+    def as_view(self, count=-1, offset=0):
+        q, r = divmod_sym(self.nbytes - I(offset), 8)
+        ctx = core.cur()
+        if not ctx.decide(r == 0):
+            unsupported('frombuffer on a byte count that is not a multiple of 8')
+        n = q if (count is None or (isinstance(count, int) and count < 0)) else I(count)
+        base = self.base + I(offset)
+        return LV(self.kf, (S(n),), lambda idx, base=base: base + 8 * idx[0], 'frombuffer')
+
+    def __len__(self):
+        unsupported('len() of lazy bytes')
+        return 0
+
+
 class KHandle:
     def __init__(self, kfile, mode='rb'):
         self.kf = kfile
@@ -476,6 +506,15 @@ class KHandle:
             return b''
         self.pos = self.kf.size
         return GarbageBytes(b'\xff')
+
+    def read(self, n=-1):
+        # a raw read of payload bytes: a lazy byte string that np.frombuffer turns into the same view fromfile gives
+        if n is None or (isinstance(n, int) and n < 0):
+            unsupported('read() to the end of a K-file')
+            return b''
+        kb = KBytes(self.kf, self.kf.gbase + self.pos, I(n))
+        self.pos = z3.simplify(self.pos + I(n))
+        return kb
 
     def fromfile(self, count):
         base = self.kf.gbase + self.pos
